@@ -28,6 +28,127 @@ def count (key op : String) : Nat :=
   | some l => l.count op
   | none => 0
 
+/-- what happens with a partial operation of the source in the model -/
+inductive Disp where
+  /-- it is the `Res.panic` site with this name -/
+  | site (name : String)
+  /-- it cannot fail; why -/
+  | total (why : String)
+  deriving Repr, DecidableEq
+
+structure Entry where
+  go : String
+  disp : Disp
+  deriving Repr
+
+/-- the EXPECTED inventory: per modelled Go function, its partial operations in source order, each with its disposition -/
+def expected : List (String × List Entry) := [
+  ("crypto/dpop/dpop.go:Parse", [
+    ⟨"index:message.Signatures()[0]", .site "Parse:Signatures()[0]"⟩,
+    ⟨"nilcheck:headers.JWK() == nil", .total "guard: Match later calls t.Headers.JWK().Thumbprint"⟩,
+    ⟨"assertok:v.(string)", .total "checked assertion (Cfg.parseTypeChecks)"⟩,
+    ⟨"assertok:v.(string)", .total "checked assertion (Cfg.parseTypeChecks)"⟩]),
+  ("crypto/dpop/dpop.go:DPoP.HTU", [
+    ⟨"assertok:v.(string)", .total "checked assertion (Cfg.htuChecked); the unchecked form is site HTU:v.(string)"⟩]),
+  ("crypto/dpop/dpop.go:DPoP.HTM", [
+    ⟨"assertok:v.(string)", .total "checked assertion (Cfg.htmChecked); the unchecked form is site HTM:v.(string)"⟩]),
+  ("crypto/dpop/dpop.go:DPoP.Match", [
+    ⟨"discard:t.Headers.JWK().Thumbprint(crypto.SHA256)", .total "JWK() is non-nil for every token Parse returns (nil check in Parse); a Thumbprint error only makes the comparison fail"⟩]),
+  ("crypto/dpop/dpop.go:strip", [
+    ⟨"index:strings.Split(url.Host, \":\")[0]", .total "strings.Split with a non-empty separator returns at least one element"⟩]),
+  ("vdr/resolver/key.go:DIDKeyResolver.ResolveKeyByID", [
+    ⟨"range:relationships", .total "bounded loop"⟩,
+    ⟨"nilcheck:rel.VerificationMethod == nil", .total "guard (Cfg.nilVMChecked); without it: site ResolveKeyByID:rel.ID(nil *VerificationMethod)"⟩,
+    ⟨"nilcheck:baseUrl != nil", .total "guard of *baseUrl"⟩,
+    ⟨"deref:*baseUrl", .total "under baseUrl != nil (model: match on Option)"⟩]),
+  ("vdr/resolver/key.go:DIDKeyResolver.baseUrl", [
+    ⟨"range:context", .total "bounded loop"⟩,
+    ⟨"index:context[i]", .total "i ranges over context"⟩,
+    ⟨"assert:ctx.(map[string]interface{})", .total "under reflect Kind()==Map; every map kind in a JSON-decoded @context is map[string]interface{} (J.obj)"⟩,
+    ⟨"index:m[\"@base\"]", .total "map read"⟩,
+    ⟨"assertok:val.(string)", .total "checked assertion (Cfg.baseChecked); the unchecked form is site baseUrl:val.(string)"⟩]),
+  ("vdr/resolver/key.go:DIDKeyResolver.ResolveKey", [
+    ⟨"range:keys", .total "bounded loop"⟩,
+    ⟨"nilcheck:key.VerificationMethod == nil", .total "guard (Cfg.nilVMChecked); without it: site ResolveKey:keys[0].PublicKey()(nil *VerificationMethod)"⟩]),
+  ("vdr/resolver/service.go:DIDServiceResolver.Resolve", []),
+  ("vdr/resolver/service.go:DIDServiceResolver.ResolveEx", [
+    ⟨"index:documentCache[referencedDID.String()]", .total "map read"⟩,
+    ⟨"nilcheck:document == nil", .total "cache miss test"⟩,
+    ⟨"indexw:documentCache[referencedDID.String()]", .site "ResolveEx:documentCache[k]=v(nil map)"⟩,
+    ⟨"range:document.Service", .total "bounded loop; document is non-nil when the resolver returns no error (contract of DIDResolver)"⟩,
+    ⟨"nilcheck:service == nil", .total "guard of *service"⟩,
+    ⟨"nilcheck:service.UnmarshalServiceEndpoint(&endpointURL) == nil", .total "error test"⟩,
+    ⟨"deref:*resolvedEndpointURI", .total "after err == nil of ssi.ParseURI"⟩,
+    ⟨"deref:*resolvedEndpointURI", .total "after err == nil of ssi.ParseURI"⟩,
+    ⟨"deref:*service", .total "under service != nil"⟩,
+    ⟨"rec:s.ResolveEx", .total "recursion with depth+1 under depth < maxDepth: measure maxDepth - depth (service_resolve_terminates)"⟩]),
+  ("vcr/revocation/bitstring.go:bitstring.bit", [
+    ⟨"deref:*bs", .total "receiver is the address of a local value at every call site"⟩,
+    ⟨"deref:*bs", .total "receiver is the address of a local value at every call site"⟩,
+    ⟨"index:(*bs)[q]", .site "bit:(*bs)[q]"⟩]),
+  ("vcr/revocation/bitstring.go:bitstring.setBit", [
+    ⟨"deref:*bs", .total "receiver is the address of a local value at every call site"⟩,
+    ⟨"deref:*bs", .total "receiver is the address of a local value at every call site"⟩,
+    ⟨"index:(*bs)[q]", .site "setBit:(*bs)[q]"⟩,
+    ⟨"deref:*bs", .total "receiver is the address of a local value at every call site"⟩,
+    ⟨"indexw:(*bs)[q]", .site "setBit:(*bs)[q]"⟩]),
+  ("vcr/revocation/bitstring.go:isSet", []),
+  ("network/dag/tree/iblt.go:Iblt.Insert", [
+    ⟨"range:i.bucketIndices(keyHash)", .total "bounded loop over the result of bucketIndices (iblt_bucket_indices_total)"⟩,
+    ⟨"index:i.buckets[h]", .site "Insert/Delete:i.buckets[h]"⟩]),
+  ("network/dag/tree/iblt.go:Iblt.Delete", [
+    ⟨"range:i.bucketIndices(keyHash)", .total "bounded loop over the result of bucketIndices (iblt_bucket_indices_total)"⟩,
+    ⟨"index:i.buckets[h]", .site "Insert/Delete:i.buckets[h]"⟩]),
+  ("network/dag/tree/iblt.go:Iblt.Subtract", [
+    ⟨"range:i.buckets", .total "bounded loop"⟩,
+    ⟨"index:i.buckets[idx]", .site "Subtract:i.buckets[idx]"⟩,
+    ⟨"index:o.buckets[idx]", .site "Subtract:o.buckets[idx]"⟩]),
+  ("network/dag/tree/iblt.go:Iblt.validate", [
+    ⟨"assertok:other.(*Iblt)", .total "checked assertion"⟩]),
+  ("network/dag/tree/iblt.go:Iblt.Decode", [
+    ⟨"for:", .total "UNBOUNDED loop: modelled with fuel, termination is theorem iblt_decode_terminates"⟩,
+    ⟨"range:i.buckets", .total "bounded loop"⟩,
+    ⟨"index:i.buckets[idx]", .site "Decode:i.buckets[idx]"⟩,
+    ⟨"index:i.buckets[idx]", .site "Decode:i.buckets[idx]"⟩,
+    ⟨"index:i.buckets[idx]", .site "Decode:i.buckets[idx]"⟩,
+    ⟨"index:i.buckets[idx]", .site "Decode:i.buckets[idx]"⟩,
+    ⟨"index:i.buckets[idx]", .site "Decode:i.buckets[idx]"⟩,
+    ⟨"index:pures[txRef]", .total "map read"⟩,
+    ⟨"indexw:pures[txRef]", .total "map write on a map made in the function"⟩,
+    ⟨"index:i.buckets[idx]", .site "Decode:i.buckets[idx]"⟩]),
+  ("network/dag/tree/iblt.go:Iblt.Empty", [
+    ⟨"range:i.buckets", .total "bounded loop"⟩,
+    ⟨"index:i.buckets[idx]", .total "idx ranges over i.buckets (model: Array.all)"⟩]),
+  ("network/dag/tree/iblt.go:Iblt.bucketIndices", [
+    ⟨"for:len(indices) < k && step < ibltMaxChain", .total "bounded by ibltMaxChain (model: recursion on the remaining steps)"⟩,
+    ⟨"divmod:next % numBuckets", .site "bucketIndices:next % numBuckets"⟩,
+    ⟨"index:bucketUsed[bucketID]", .total "map read"⟩,
+    ⟨"indexw:bucketUsed[bucketID]", .total "map write on a map made in the function"⟩,
+    ⟨"for:len(indices) < k && off < numBuckets", .total "bounded by numBuckets (model: recursion on the remaining offsets)"⟩,
+    ⟨"divmod:(bucketID + off) % numBuckets", .site "bucketIndices:(bucketID + off) % numBuckets"⟩,
+    ⟨"index:bucketUsed[probe]", .total "map read"⟩,
+    ⟨"indexw:bucketUsed[probe]", .total "map write on a map made in the function"⟩]),
+  ("network/dag/tree/iblt.go:Iblt.UnmarshalBinary", [
+    ⟨"divmod:len(data) / bucketBytes", .total "bucketBytes is the constant 44"⟩,
+    ⟨"for:j < i.numBuckets()", .total "bounded loop"⟩,
+    ⟨"index:i.buckets[j]", .total "j < len(i.buckets) is the loop condition (model: Array.push)"⟩,
+    ⟨"rec:i.buckets[j].UnmarshalBinary", .total "not recursion: the method of bucket"⟩]),
+  ("network/dag/tree/iblt.go:bucket.UnmarshalBinary", [
+    ⟨"conv:(*[bucketBytes]byte)(data)", .site "bucket.UnmarshalBinary:(*[bucketBytes]byte)(data)"⟩,
+    ⟨"slice:d[:4]", .total "constant bounds on an array of 44"⟩,
+    ⟨"slice:d[4:12]", .total "constant bounds on an array of 44"⟩,
+    ⟨"slice:d[12:]", .total "constant bounds on an array of 44"⟩,
+    ⟨"conv:(*hash.SHA256Hash)(d[12:])", .total "d[12:] has the 32 elements of the target array"⟩,
+    ⟨"deref:*keySum", .total "result of the conversion above, never nil"⟩]),
+  ("auth/api/iam/openid4vp.go:withCallbackURI", [
+    ⟨"assert:err.(oauth.OAuth2Error)", .site "withCallbackURI:err.(oauth.OAuth2Error)"⟩])]
+
+def expectedOps : List (String × List String) := expected.map fun p => (p.1, p.2.map (·.go))
+
+/-- the panic sites the expected inventory refers to -/
+def expectedSites : List String :=
+  (expected.flatMap fun p => p.2.filterMap fun e => match e.disp with | .site n => some n | .total _ => none).eraseDups
+
 /-! ### model configurations as the source stands today -/
 
 def dpopCfg : Dpop.Cfg :=
